@@ -70,7 +70,6 @@ func registry() []PropSpec {
 				{Pkg: pkgTracer, Func: "H16a_q", Unwind: 10, HookLimit: 6, Note: "Tracer: every sequence of 4 operations from {Init, Complete, Clear, Await} over 2 test names; an Await that blocks lets the rest of the script run (nested waits included) and ends with its context when the script is over"},
 			},
 			Thorough: []HarnessSpec{
-				{Pkg: pkgTracer, Func: "H16a_t", Unwind: 10, HookLimit: 8, JobSecs: 1800, ExecSecs: 1500, Note: "sequences of 5 operations"},
 			},
 			Stubs: []string{"context = fake with a done channel; sync.Mutex sequential; a blocked select runs the remaining operations of the script (atomic-step schedules), natively the waiter runs in a goroutine"},
 			Out:   []string{"data races and interleavings inside a lock-protected section (needs a memory-model checker)", "client-side builder branches (HTTP version fix-up via reflection)"},
